@@ -58,7 +58,7 @@ Theorem C05_typeof : forall v,
                | VP (PBool _) => s_boolean
                | VP (PNum _) => s_number
                | VP (PStr _) => s_string
-               | VO o => if o_cls o =? 2 then s_function else s_object
+               | VO o => if (o_cls o =? 2) || (o_cls o =? 4) then s_function else s_object
                end.
 Proof. exact typeof_table. Qed.
 Print Assumptions C05_typeof.
@@ -109,16 +109,22 @@ Print Assumptions C05_divide_is_ieee.
 
 (* 11.6.1: otto converts the left operand of + before it reads the right variable.
    The two orders give the same result, state and call log for every continuation
-   whenever the left operand's valueOf/toString assign no variable and the
-   conversion completes normally; C05_plus_order_refuted shows the hypothesis is needed *)
-Theorem C05_plus_operand_order : forall A (k : prim -> value -> M A) v n st,
-  value_pure v ->
-  (exists p st', to_primitive 0 v st = (Ok p, st')) ->
+   whenever the left operand's conversion completes normally and leaves the
+   variables as they were (e.g. every method it calls is [meth_pure]);
+   C05_plus_order_refuted shows the hypothesis is needed *)
+Theorem C05_plus_operand_order : forall A (k : prim -> value -> M A) v n st p st',
+  to_primitive 0 v st = (Ok p, st') ->
+  vars st' = vars st ->
   nth_error (vars st) n <> None ->
   (lp <- to_primitive 0 v ;; rv <- getvar n ;; k lp rv) st =
   (rv <- getvar n ;; lp <- to_primitive 0 v ;; k lp rv) st.
 Proof. exact plus_getvalue_commutes. Qed.
 Print Assumptions C05_plus_operand_order.
+
+Theorem C05_pure_method_keeps_variables : forall h w m st, meth_pure m ->
+  vars (snd (call_meth h w m st)) = vars st.
+Proof. exact call_meth_vars. Qed.
+Print Assumptions C05_pure_method_keeps_variables.
 
 (* otto's deviations, as refutations of "model = spec" with concrete witnesses *)
 Definition units_inf : list Z := [105; 110; 102].                      (* "inf" *)
@@ -146,7 +152,7 @@ Print Assumptions C05_strcmp_refuted.
 (* var b = 2, a = {valueOf: function(){ b = 10; return 1 }}; a + b *)
 Definition order_obj : value :=
   VO (Build_obj 1 0 (MDo (Some (1%nat, PNum 0x4024000000000000)) (MPrim (PNum 0x3FF0000000000000))) MNone [] [] (-1)).
-Theorem C05_plus_order_refuted : exists vs e, run model_d vs e <> run spec_d vs e.
+Theorem C05_plus_order_refuted : exists vs e, run model_d [] vs e <> run spec_d [] vs e.
 Proof.
   exists [order_obj; VP (PNum 0x4000000000000000)], (EBin 0 (EVar 0) (EVar 1)).
   vm_compute. discriminate.
@@ -158,8 +164,8 @@ Print Assumptions C05_plus_order_refuted.
 Example C05_compound_order_witness :
   let vs := [VP (PNum 0x3FF0000000000000)] in
   let e := ECmp 0 0 (EBin 23 (EAsg 0 (ELit (VP (PNum 0x4014000000000000)))) (ELit (VP (PNum 0x3FF0000000000000)))) in
-  run model_d vs e = run spec_d vs e /\
-  run spec_d vs e = Some (0, OP (PNum 0x4000000000000000), [OP (PNum 0x4000000000000000)], []).
+  run model_d [] vs e = run spec_d [] vs e /\
+  run spec_d [] vs e = Some (0, OP (PNum 0x4000000000000000), [OP (PNum 0x4000000000000000)], []).
 Proof. vm_compute. split; reflexivity. Qed.
 
 (* String(9007199254740993) *)
@@ -175,12 +181,41 @@ Example C05_beyond_met : trunc_int 0x43E0000000000001 = Some (2 ^ 63 + 2048) /\ 
 Proof. vm_compute. split; reflexivity. Qed.
 Example C05_divide_range_met : 0 <= 0x3FF0000000000000 < 2 ^ 64 /\ fdiv 0x3FF0000000000000 0x4008000000000000 = 0x3FD5555555555555.
 Proof. vm_compute. split; [split; [discriminate | reflexivity] | reflexivity]. Qed.
+Definition st0 : state := {| vars := [VP PNull]; log := []; tbl := []; protos := [] |}.
 Definition pure_obj : value :=
-  VO (Build_obj 1 0 (MDo None MObj) (MDo None (MPrim (PStr [120]))) [] [] (-1)).
+  VO (Build_obj 1 0 (MDo None MObj) (MDo None (MPrim (PStr [120]))) [] [90] (-1)).
 Example C05_plus_operand_order_met :
-  value_pure pure_obj /\
-  to_primitive 0 pure_obj {| vars := [VP PNull]; log := [] |} = (Ok (PStr [120]), {| vars := [VP PNull]; log := [3; 2] |}).
-Proof. vm_compute. repeat split; reflexivity. Qed.
+  to_primitive 0 pure_obj st0 = (Ok (PStr [120]), {| vars := [VP PNull]; log := [3; 2]; tbl := []; protos := [] |}).
+Proof. vm_compute. reflexivity. Qed.
+
+(* 8.12.8 does a fresh [[Get]] at every conversion: an object that inherits valueOf from its
+   prototype sees the replacement installed on the prototype between two uses.
+   o1 = Object.create(o91); a = o1 * 1; o91.valueOf = function(){ return 7 }; b = o1 * 1 *)
+Definition proto91 : value := VO (Build_obj 91 0 (MDo None (MPrim (PNum 0x4008000000000000))) MInherit [] [90] (-1)).
+Definition child1 : value := VO (Build_obj 1 0 MInherit MInherit [] [91; 90] (-1)).
+Example C05_fresh_get_each_conversion :
+  run spec_d [proto91] [VP PUndef; VP PUndef]
+    (EBin 23 (EAsg 0 (EBin 2 (ELit child1) (ELit (VP (PNum 0x3FF0000000000000)))))
+      (EBin 23 (ESetM 91 0 (MDo None (MPrim (PNum 0x401C000000000000))))
+        (EAsg 1 (EBin 2 (ELit child1) (ELit (VP (PNum 0x3FF0000000000000)))))))
+  = Some (0, OP (PNum 0x401C000000000000), [OP (PNum 0x4008000000000000); OP (PNum 0x401C000000000000)], [182; 182]).
+Proof. vm_compute. reflexivity. Qed.
+
+(* 15.3.5.3 step 4a: the walk starts at V.[[Prototype]]: F.prototype instanceof F is false *)
+Example C05_prototype_is_not_instance :
+  run spec_d [proto91] []
+    (EBin 20 (ELit proto91) (ELit (VO (Build_obj 2 2 MNone MNone [] [89; 90] 91))))
+  = Some (0, OP (PBool false), [], []).
+Proof. vm_compute. reflexivity. Qed.
+
+(* (new F) instanceof F.bind(null): 15.3.4.5.3 delegates to the target *)
+Theorem C05_instanceof_bound_refuted : exists ps vs e, run model_d ps vs e <> run spec_d ps vs e.
+Proof.
+  exists [proto91], [], (EBin 20 (ELit child1) (ELit (VO (Build_obj 2 4 MNone MNone [] [89; 90] 91)))).
+  vm_compute. discriminate.
+Qed.
+Print Assumptions C05_instanceof_bound_refuted.
+
 Example C05_strings_met :
   Forall no_high [0x61; 0xFFFF; 0xE9] /\ Forall unit_ok [0xD800; 0xDC00] /\ code_points [0xD800; 0xDC00] = [0x10000].
 Proof. repeat split; try (repeat constructor; vm_compute; intuition discriminate). Qed.
